@@ -157,6 +157,15 @@ struct Interp
   smt::lra_theory *lra = nullptr;
   std::vector<smt::var> bl{smt::FALSE_var};
   std::vector<smt::var> xs;
+  struct Guard
+  {
+    smt::var g;
+    bool defined;
+    smt::var x;
+    int kind;
+    smt::inf_rational v;
+  };
+  std::vector<Guard> guards;
   bool dead = false;
   lit ref(long s, long i) { return lit(bl[static_cast<size_t>(std::labs(i)) % bl.size()], (s & 1) != 0); }
   smt::lin plin(const Op &op, size_t &pos)
@@ -360,6 +369,46 @@ struct Interp
     {
       if (!sat->root_level())
         res("next", sat->next());
+    }
+    else if (n == "guard")
+    { // a literal of the simulated client (the executor's xi): decided only by cbound, never offered to the other ops
+      if (sat->root_level())
+        guards.push_back({sat->new_var(), false, 0, 0, smt::inf_rational()});
+    }
+    else if (n == "cbound")
+    { // the client decides its guard and imposes a bound directly (set_lb / set_ub / set with the guard as reason); a conflict found
+      // outside propagation goes to backtrack_analyze_and_backjump. Bounding a variable defined by new_var(lin) makes its row - the
+      // only kind of row with a constant - leave the basis in a later pivot
+      if (guards.empty() || xs.empty())
+        return;
+      if (sat->root_level() && !sat->propagate())
+      {
+        res("prop", false);
+        return;
+      }
+      Guard &gd = guards[static_cast<size_t>(std::labs(op.arg(0))) % guards.size()];
+      if (sat->value(gd.g) != smt::Undefined)
+        return;
+      if (!gd.defined)
+      {
+        const size_t xi = static_cast<size_t>(std::labs(op.arg(1)));
+        gd.x = xs[xi >= 1000 ? xs.size() - 1 - (xi - 1000) % xs.size() : xi % xs.size()];
+        gd.kind = static_cast<int>(std::labs(op.arg(2)) % 3);
+        smt::rational q(op.arg(3), std::labs(op.arg(4)) % 4 + 1);
+        if (std::labs(op.arg(6)) % 4 >= 2)
+          q += lra->value(gd.x).get_rational();
+        const long strict = gd.kind == 2 ? 0 : std::labs(op.arg(5)) % 2;
+        gd.v = smt::inf_rational(q, smt::rational(gd.kind == 0 ? strict : -strict));
+        gd.defined = true;
+      }
+      const lit g(gd.g);
+      const bool r0 = sat->assume(g);
+      res("cbound.assume", r0);
+      if (!r0 || sat->value(g) != smt::True)
+        return;
+      const bool r = gd.kind == 0 ? lra->set_lb(gd.x, gd.v, g) : (gd.kind == 1 ? lra->set_ub(gd.x, gd.v, g) : lra->set(gd.x, gd.v, g));
+      log->ev(std::string("cbound x") + std::to_string(gd.x) + " kind " + std::to_string(gd.kind) + " " + rs(gd.v) + (r ? " accepted" : " conflict"));
+      res("cbound.follow_up", r ? sat->propagate() : lra->backtrack_analyze_and_backjump());
     }
     else if (n == "check")
     {
